@@ -693,4 +693,16 @@ OnlyDecimalDups(t) ==
                  /\ Cardinality({c \in 1..Len(t.kv) : t.kv[c][1] = t.kv[a][1]}) = 2
          /\ \A i \in 1..Len(t.kv) : OnlyDecimalDups(t.kv[i][2])
     [] OTHER -> TRUE
+
+(* ... and the one shape in which those duplicates make the text unstable: the scale was defaulted, so the
+   written object has "precision" twice but "scale" once; the re-read keeps that "scale": 0 as one more attribute *)
+KeyCount(o, k) == Cardinality({c \in 1..Len(o.kv) : o.kv[c][1] = k})
+RECURSIVE DefaultedScaleDup(_)
+DefaultedScaleDup(t) ==
+  CASE t.j = "arr" -> \E i \in 1..Len(t.items) : DefaultedScaleDup(t.items[i])
+    [] t.j = "obj" ->
+         \/ /\ HasStr(t, "type") /\ Get(t, "type").s = "fixed" /\ LogicalOf(t, "fixed") = "decimal"
+            /\ KeyCount(t, "precision") = 2 /\ KeyCount(t, "scale") = 1
+         \/ \E i \in 1..Len(t.kv) : DefaultedScaleDup(t.kv[i][2])
+    [] OTHER -> FALSE
 =============================================================================
